@@ -141,7 +141,9 @@ class Check:
         self.violations = 0
         self.known_hits = {}
         self.findings = Findings()
-        self.replay_dir = os.path.join(VERIF, 'replays')
+        # runs against a scratch copy of the repository (W2C2_REPO=...) never touch the committed evidence
+        self.alt = os.path.realpath(REPO) != '/repo'
+        self.replay_dir = os.path.join(BUILD, 'alt-replays') if self.alt else os.path.join(VERIF, 'replays')
         self.deadline = None
 
     def add(self, **kw):
@@ -185,8 +187,9 @@ class Check:
               'assumptions': self.assumptions, 'wall_s': round(time.time() - self.t0, 2), 'violations': self.violations}
         if self.known_hits:
             ev['coverage']['known_findings_hit'] = self.known_hits
-        os.makedirs(os.path.join(VERIF, 'evidence'), exist_ok=True)
-        with open(os.path.join(VERIF, 'evidence', self.prop + '.json'), 'w') as f:
+        evdir = os.path.join(BUILD, 'alt-evidence') if self.alt else os.path.join(VERIF, 'evidence')
+        os.makedirs(evdir, exist_ok=True)
+        with open(os.path.join(evdir, self.prop + '.json'), 'w') as f:
             json.dump(ev, f, indent=1, default=str)
         print('%s %s: evaluations=%s distinct_nontrivial=%s violations=%d known=%d exhaustive=%s wall=%.1fs' % (
             self.prop, self.tier, self.cov.get('evaluations'), self.cov.get('distinct_nontrivial'), self.violations,
